@@ -228,7 +228,9 @@ func newFinishedHash(version uint16, cipherSuite *cipherSuite) finishedHash {
 
 	if version == VersionGMSSL {
 		prf = prfAndHashForGM()
-		return finishedHash{sm3.New(), sm3.New(), nil, nil, buffer, version, prf}
+		// Write feeds the MD5 pair for every version below TLS 1.2, GMSSL (0x0101) included:
+		// give it the same no-op hashes as newFinishedHashGM
+		return finishedHash{sm3.New(), sm3.New(), new(nilMD5Hash), new(nilMD5Hash), buffer, version, prf}
 	} else {
 		prf, hash := prfAndHashForVersion(version, cipherSuite)
 		if hash != 0 {
